@@ -60,6 +60,22 @@ Proof. exact (fd_unique_pivots nd dy ud t). Qed.
 Theorem C02_uniqueness_example : Forall (fun w => w_ud w = sl_ud (w_x w)) (flatten (fd KR AR sl_nd sl_dy sl_t)).
 Proof. exact sl_unique. Qed.
 
+(** the body-to-mobility force mapping calcTreeEquivalentMobilityForces (calcEquivalentJointForces per node): for all test
+    speeds v,  v . f_equiv = sum_b < F_b - (Mk A_bias,b + b_b), (J v)_b >  (applied body forces enter exactly as J^T F), and
+    v . f_equiv + v . tau(udot = 0) = - v . f  (the velocity-dependent terms are those of inverse dynamics) *)
+Theorem C02_equivalent_mobility_forces_are_Jt_of_net_body_force {X} (nd : X -> node (SpatialVec R) (Vec3 R) (SpInertia (T:=R)))
+    (dy : X -> dyn R (SpatialVec R)) (v : X -> list R) (t : tree X) :
+  tsum (tmap (fun r => dotU KR (snd r) (v (fst (fst r)))) (equivf KR AR nd dy t))
+  = tsum (tmap (fun xw => dot KR (equiv_force KR AR nd dy (fst xw)) (snd xw))
+                (mulJ KR (fun xv => nd (fst xv)) (fun xv => v (fst xv)) (rnea_acc KR nd dy (fun _ => []) t))).
+Proof. exact (equiv_weak_R nd dy v t). Qed.
+Theorem C02_equivalent_mobility_forces_are_minus_bias_residual {X} (nd : X -> node (SpatialVec R) (Vec3 R) (SpInertia (T:=R)))
+    (dy : X -> dyn R (SpatialVec R)) (v : X -> list R) (t : tree X) :
+  tsum (tmap (fun r => dotU KR (snd r) (v (fst (fst r)))) (equivf KR AR nd dy t))
+  + tsum (tmap (fun r => dotU KR (snd r) (v (fst (fst (fst r))))) (rnea KR AR nd dy (fun _ => []) t))
+  = - tsum (tmap (fun xa => dotU KR (d_f (dy (fst xa))) (v (fst xa))) (rnea_acc KR nd dy (fun _ => []) t)).
+Proof. exact (equiv_is_minus_bias_residual_R nd dy v t). Qed.
+
 (** explicit dof-3 instance (Ball, Gimbal, Translation, Planar, ... mobilizers): leading principal minors non-zero *)
 Theorem C02_gj_sym_inverse_3 a b c d e f :
   a <> 0 -> a * d - b * b <> 0 -> a * (d * f - e * e) - b * (b * f - e * c) + c * (b * e - d * c) <> 0 ->
@@ -80,5 +96,7 @@ Print Assumptions C02_fd_then_rnea_zero_any_dof.
 Print Assumptions C02_mulM_mulMInv_id_any_dof.
 Print Assumptions C02_rnea_zero_then_fd_returns_udot.
 Print Assumptions C02_uniqueness_example.
+Print Assumptions C02_equivalent_mobility_forces_are_Jt_of_net_body_force.
+Print Assumptions C02_equivalent_mobility_forces_are_minus_bias_residual.
 Print Assumptions C02_gj_sym_inverse_3.
 Print Assumptions C02_gj_example.
